@@ -170,13 +170,14 @@ example :
 /-! ### Random generators -/
 
 /-- Reachable from `s₀` by any interleaving of NRT iterations and RT environment moves. -/
-theorem reach_drawInv {s₀ s : S} (h0 : DrawInv s₀) (h : Reach s₀ s) : DrawInv s := by
+theorem reach_drawInv {s₀ s : S} (h0 : DrawInv s₀) (hn0 : ∀ r, NoRestore (s₀.rts r).script)
+    (h : Reach s₀ s) : DrawInv s ∧ ∀ r, NoRestore (s.rts r).script := by
   induction h with
-  | refl => exact h0
+  | refl => exact ⟨h0, hn0⟩
   | nrt _ ih =>
     unfold S.stepNrt; split
     · exact ih
-    · exact exec_drawInv ih _
+    · exact ⟨exec_drawInv ih.1 _ (ih.2 _), fun r => by rw [exec_script]; exact ih.2 r⟩
   | rt now m _ ih =>
     cases m with
     | advance d => simp only [RtS.step]; split <;> exact ih
@@ -185,19 +186,51 @@ theorem reach_drawInv {s₀ s : S} (h0 : DrawInv s₀) (h : Reach s₀ s) : Draw
       split
       · exact ih
       · split
-        · exact exec_drawInv ih _
+        · exact ⟨exec_drawInv ih.1 _ (ih.2 _), fun r => by rw [exec_script]; exact ih.2 r⟩
         · exact ih
 
-/-- `rgen_isolation`, part 1.  In every run of every program, in either mode and under every
-    schedule, each random generator is read at indices 0, 1, 2, … in this order: what a
-    generator hands out is the prefix of ITS OWN stream, whoever draws from other generators in
-    between and however the routines interleave. -/
-theorem rgen_isolation (prog : Nat → List Act) (tempi : Nat → Rat) (start : Rat) (c0 : Clk) {s : S}
+/-- `rgen_isolation`, part 1.  In every run of every program that does not assign a `rand_state` (which
+    rewinds a generator on purpose), in either mode and under every schedule, each random generator object is
+    read at indices 0, 1, 2, … in this order: what a generator hands out is the prefix of ITS OWN stream,
+    whoever draws from other generators in between and however the routines interleave. -/
+theorem rgen_isolation (prog : Nat → List Act) (tempi : Nat → Rat) (start : Rat) (c0 : Clk)
+    (hnr : ∀ r, NoRestore (prog r)) {s : S}
     (h : Reach (S.init prog tempi start c0) s) (g : Nat) :
     drawIdxs g s.trace = List.range (s.draws g) := by
-  apply reach_drawInv _ h
-  intro g'
-  simp [S.init, S.schedNow, S.add, S.setRt, drawIdxs]
+  refine (reach_drawInv ?_ ?_ h).1 g
+  · intro g'
+    simp [S.init, S.schedNow, S.add, S.setRt, drawIdxs]
+  · intro r
+    have : ((S.init prog tempi start c0).rts r).script = prog r := by
+      simp only [S.init, S.schedNow, S.add, S.setRt]
+      repeat' split
+      all_goals simp_all
+    rw [this]; exact hnr r
+
+/-- `rand_state` read by ANY routine `x` (from inside or from outside): what is saved is (stream, position) of
+    routine r's OWN generator object — the reader's generator does not appear. -/
+theorem rand_state_reads_own_generator (s : S) (x : Ctx) (k r : Nat) (rest : List Act)
+    (hc : ((s.bumpPc x.rid).rts r).created = true) :
+    runActs s x (.save k r :: rest) =
+      runActs { (s.bumpPc x.rid) with
+                saved := fun j => if j = k then
+                    some ((s.bumpPc x.rid).genSeed ((s.bumpPc x.rid).rts r).gen,
+                          (s.bumpPc x.rid).draws ((s.bumpPc x.rid).rts r).gen)
+                  else (s.bumpPc x.rid).saved j } x rest := by
+  rw [runActs]
+  simp [hc]
+
+/-- Assigning a saved `rand_state` to routine r makes r's generator object continue at the saved stream and
+    position: the draws that followed the save are handed out again. -/
+theorem rand_state_restore_rewinds (s : S) (x : Ctx) (k r : Nat) (rest : List Act) (sd : Option Nat) (pos : Nat)
+    (hs : (s.bumpPc x.rid).saved k = some (sd, pos)) (hc : ((s.bumpPc x.rid).rts r).created = true) :
+    runActs s x (.restore k r :: rest) =
+      runActs { (s.bumpPc x.rid) with
+                genSeed := fun j => if j = ((s.bumpPc x.rid).rts r).gen then sd else (s.bumpPc x.rid).genSeed j
+                draws := fun j => if j = ((s.bumpPc x.rid).rts r).gen then pos else (s.bumpPc x.rid).draws j }
+        x rest := by
+  rw [runActs]
+  simp [hs, hc]
 
 /-- `rgen_isolation`, part 2: which generator a routine reads.  A routine created inside another
     routine's body gets the creator's generator AS IT IS AT THAT MOMENT; seeding gives the routine
